@@ -1548,9 +1548,14 @@ class Converter:
                 as_bool = ta.base_type_is_bool(typeinfo)
                 self._bind(x.arg, values.AttrRef(attr, as_bool, self._source_of(x)))
             else:
-                onnx_parameter = make_value(x.arg, typeinfo, self._source_of(x))
+                parameter_name = x.arg
+                if self._outer and parameter_name in self._used_vars:
+                    # A formal input of a nested function (a graph attribute) must not
+                    # redefine a name of the enclosing graphs.
+                    parameter_name = self._generate_unique_name(parameter_name)
+                onnx_parameter = make_value(parameter_name, typeinfo, self._source_of(x))
                 self._current_fn.append_parameter(onnx_parameter)
-                self._used_vars.add(x.arg)
+                self._used_vars.add(parameter_name)
                 if _verif.ENABLED:
                     _verif.emit("converter", "Param", name=x.arg, signature=True)
                 self._bind(
